@@ -584,15 +584,6 @@ func (c *Ctx) startMesh() modeling.Mesh {
 	}
 }
 
-// filter on a topology with multi-index primitives breaks primitives apart; see notes/C02.md.
-func filterApplicable(m modeling.Mesh) bool {
-	switch m.Topology() {
-	case modeling.PointTopology, modeling.LineStripTopology, modeling.LineLoopTopology:
-		return true
-	}
-	return false
-}
-
 // noteMesh records the shape class of an input for the distribution report
 func (c *Ctx) noteMesh(prefix string, m modeling.Mesh) {
 	c.Note(prefix + ":topo=" + strings.ReplaceAll(m.Topology().String(), " ", ""))
